@@ -195,6 +195,9 @@ func runC06(c *core.Ctx) {
 	}
 	mdCache := map[int]*saml.EntityDescriptor{}
 	lattice.Enumerate(fields, k, func(idx []int, dev int) {
+		if c.Stopped() {
+			return // past the cap: the rest of the product is not even named (naming tens of millions of points takes minutes)
+		}
 		pt := append([]int{}, idx...)
 		key := fmt.Sprintf("req=%s/session=%s/shape=%s/idp=%s/method=%s/inter=%d/clock=%v/tol=%s", reqKinds[pt[0]], sessions[pt[1]].name, shapes[pt[2]].name, idpConfs[pt[3]],
 			shortAlg(c06Methods[pt[4]]), pt[5], clocks[pt[6]], tols[pt[7]].name)
